@@ -120,8 +120,28 @@ def run(ctx):
                     ns["visit_" + raw] = (lambda kk: (lambda self, node: (called.append(("DECOY:" + kk, node)), "decoy")[1]))(raw)
         # how the handlers reach the visitor: declared on a direct subclass, inherited from a parent visitor class,
         # split over two levels, or attached to the class after the class statement (all are "a visitor's method")
-        shape = rng.randrange(4)
-        if shape == 0:
+        shape = rng.randrange(6)
+        if shape == 4:
+            # the class has ALREADY been instantiated (with fewer handlers) when the rest of its handlers are attached; the
+            # visitor used below is created afterwards and has all of them
+            items = sorted(ns.items())
+            V = type("V", (P.NodeVisitor,), dict(items[::2]))
+            V()
+            for k2, f2 in items[1::2]:
+                setattr(V, k2, f2)
+        elif shape == 5:
+            # handlers bound on the INSTANCE before NodeVisitor.__init__ runs (as the library's own grammar visitor does); an
+            # earlier instance of the same class was created without them
+            items = sorted(ns.items())
+
+            def _init(self, with_own=True, _items=items):
+                if with_own:
+                    for k2, f2 in _items[1::2]:
+                        setattr(self, k2, f2.__get__(self))
+                P.NodeVisitor.__init__(self)
+            V = type("V", (P.NodeVisitor,), dict(items[::2], __init__=_init))
+            V(with_own=False)
+        elif shape == 0:
             V = type("V", (P.NodeVisitor,), ns)
         elif shape == 1:
             V = type("V", (type("Base", (P.NodeVisitor,), ns),), {})
